@@ -196,7 +196,18 @@ def r11_2(ctx):
     p = ctx.p
     fi = p.func("mbox.Mailbox.check_new_msgs_and_flags")
     ctx.analysed(fi)
-    okv = False
+    from .common import pm_of
+
+    # (the matcher compares canonical forms: `fetch, _ = f(key); xs.append(fetch)` is `xs.append(f(key)[0])`)
+    okv = any(pm_of(p, fi).has(x) for x in (
+        "fetch, _ = self._generate_fetch_msg_for(key)\nnotifications.append(fetch)",
+        "fetch, _ = self._generate_fetch_msg_for(key, publish_uid=False)\nnotifications.append(fetch)",
+        "fetch, _ = self._generate_fetch_msg_for(key, False)\nnotifications.append(fetch)",
+    ))
+    gen = [c for c in calls_in(fi.node) if call_name(c) == "_generate_fetch_msg_for"]
+    ctx.floor("R11.2", len(gen), 1, "FETCH lines generated by the reconcile")
+    if len(gen) != 1:
+        okv = False
     for s in body_walk(fi.node):
         if isinstance(s, ast.Assign) and isinstance(s.targets[0], ast.Tuple) and isinstance(s.value, ast.Call) and call_name(s.value) == "_generate_fetch_msg_for":
             first = s.targets[0].elts[0]
